@@ -1,0 +1,138 @@
+//go:build verif
+
+package sonic
+
+// Contracts for AsyncAdapter (properties C01, C02, C13, C17).
+
+//@ immutable [C01,C02] AsyncAdapter.ioc AsyncAdapter.rw asyncAdapterReadReactor.adapter asyncAdapterWriteReactor.adapter constructors NewAsyncAdapter
+
+//@ pred aInv(a *AsyncAdapter) =
+//@   a.ioc != nil && a.ioc.poller != nil && internal.pInv(a.ioc.poller) && a.rw != nil &&
+//@   a.readReactor.adapter == a && a.writeReactor.adapter == a && 0 <= a.slot.Fd
+
+//@ pred aArmedR(a *AsyncAdapter) = internal.armed(&a.slot, internal.PollerReadEvent)
+//@ pred aArmedW(a *AsyncAdapter) = internal.armed(&a.slot, internal.PollerWriteEvent)
+
+//@ func fnparam:(*AsyncAdapter).*.cb
+//@   trusted
+//@   ensures internal.pInv(a.ioc.poller) && a.ioc.Dispatched == old(a.ioc.Dispatched)
+//@ func fnparam:(*asyncAdapterReadReactor).onRead.cb
+//@   trusted
+//@   ensures internal.pInv(r.adapter.ioc.poller)
+//@ func fnparam:(*asyncAdapterWriteReactor).onWrite.cb
+//@   trusted
+//@   ensures internal.pInv(r.adapter.ioc.poller)
+
+//@ func (*AsyncAdapter).Closed
+//@   pure
+
+//@ func (*AsyncAdapter).scheduleRead
+//@   prop C01, C02, C03
+//@   requires aInv(a) && cb != nil && !aArmedR(a)
+//@   consumes cb unless aArmedR(a)
+//@   ensures [armed] invoked(cb) == 0 ==> a.readReactor.readSoFar == readBytes && a.slot.Handlers[0] == a.readReactor.onRead &&
+//@           a.ioc.poller.pending == old(a.ioc.poller.pending) + 1
+//@   ensures [write-side] invoked(cb) == 0 ==> aArmedW(a) == old(aArmedW(a))
+//@   ensures [reactor-kept] invoked(cb) == 0 ==> a.readReactor.b == old(a.readReactor.b) && a.readReactor.readAll == old(a.readReactor.readAll) &&
+//@           a.readReactor.cb == old(a.readReactor.cb)
+
+//@ func (*AsyncAdapter).asyncReadNow
+//@   prop C01, C02
+//@   requires aInv(a) && cb != nil && !aArmedR(a) && 0 <= readBytes && readBytes <= len(b)
+//@   requires a.readReactor.b == b && a.readReactor.readAll == readAll
+//@   assert call io.Reader.Read: alias(arg1, b[readBytes:])
+//@   assert call cb: old(readBytes) <= arg1 && arg1 <= len(b) && (arg0 == nil && readAll ==> arg1 == len(b))
+//@   consumes cb unless aArmedR(a)
+//@   ensures [armed] invoked(cb) == 0 ==> a.slot.Handlers[0] == a.readReactor.onRead &&
+//@           readBytes <= a.readReactor.readSoFar && a.readReactor.readSoFar <= len(b) &&
+//@           a.readReactor.b == b && a.readReactor.readAll == readAll
+
+//@ func (*asyncAdapterReadReactor).onRead
+//@   prop C01, C02
+//@   requires r.adapter != nil && aInv(r.adapter) && &r.adapter.readReactor == r && !aArmedR(r.adapter)
+//@   requires r.cb != nil && 0 <= r.readSoFar && r.readSoFar <= len(r.b)
+//@   assert call cb: err != nil && arg0 == err && arg1 == old(r.readSoFar)
+//@   consumes r.cb unless aArmedR(r.adapter)
+
+//@ func (*AsyncAdapter).AsyncRead
+//@   prop C01, C02
+//@   requires aInv(a) && cb != nil && !aArmedR(a)
+//@   consumes cb unless aArmedR(a)
+//@   ensures [armed] invoked(cb) == 0 ==> a.readReactor.b == b && !a.readReactor.readAll && a.readReactor.cb == cb &&
+//@           a.readReactor.readSoFar == 0 && a.slot.Handlers[0] == a.readReactor.onRead
+
+//@ func (*AsyncAdapter).AsyncReadAll
+//@   prop C01, C02
+//@   requires aInv(a) && cb != nil && !aArmedR(a)
+//@   consumes cb unless aArmedR(a)
+//@   ensures [armed] invoked(cb) == 0 ==> a.readReactor.b == b && a.readReactor.readAll && a.readReactor.cb == cb &&
+//@           a.readReactor.readSoFar == 0 && a.slot.Handlers[0] == a.readReactor.onRead
+
+// --- write side ---
+
+//@ func (*AsyncAdapter).scheduleWrite
+//@   prop C01, C02, C03
+//@   requires aInv(a) && cb != nil && !aArmedW(a)
+//@   consumes cb unless aArmedW(a)
+//@   ensures [armed] invoked(cb) == 0 ==> a.writeReactor.wroteSoFar == writtenBytes && a.slot.Handlers[1] == a.writeReactor.onWrite &&
+//@           a.ioc.poller.pending == old(a.ioc.poller.pending) + 1
+//@   ensures [read-side] invoked(cb) == 0 ==> aArmedR(a) == old(aArmedR(a))
+//@   ensures [reactor-kept] invoked(cb) == 0 ==> a.writeReactor.b == old(a.writeReactor.b) && a.writeReactor.writeAll == old(a.writeReactor.writeAll) &&
+//@           a.writeReactor.cb == old(a.writeReactor.cb)
+
+//@ func (*AsyncAdapter).asyncWriteNow
+//@   prop C01, C02
+//@   requires aInv(a) && cb != nil && !aArmedW(a) && 0 <= writtenBytes && writtenBytes <= len(b)
+//@   requires a.writeReactor.b == b && a.writeReactor.writeAll == writeAll
+//@   assert call io.Writer.Write: alias(arg1, b[writtenBytes:])
+//@   assert call cb: old(writtenBytes) <= arg1 && arg1 <= len(b) && (arg0 == nil && writeAll ==> arg1 == len(b))
+//@   consumes cb unless aArmedW(a)
+//@   ensures [armed] invoked(cb) == 0 ==> a.slot.Handlers[1] == a.writeReactor.onWrite &&
+//@           writtenBytes <= a.writeReactor.wroteSoFar && a.writeReactor.wroteSoFar <= len(b) &&
+//@           a.writeReactor.b == b && a.writeReactor.writeAll == writeAll
+
+//@ func (*asyncAdapterWriteReactor).onWrite
+//@   prop C01, C02
+//@   requires r.adapter != nil && aInv(r.adapter) && &r.adapter.writeReactor == r && !aArmedW(r.adapter)
+//@   requires r.cb != nil && 0 <= r.wroteSoFar && r.wroteSoFar <= len(r.b)
+//@   assert call cb: err != nil && arg0 == err && arg1 == old(r.wroteSoFar)
+//@   consumes r.cb unless aArmedW(r.adapter)
+
+//@ func (*AsyncAdapter).AsyncWrite
+//@   prop C01, C02, C17
+//@   // one write in flight per object: starting a second one would overwrite the record of the first
+//@   requires aInv(a) && cb != nil && !aArmedW(a)
+//@   consumes cb unless aArmedW(a)
+//@   ensures [armed] invoked(cb) == 0 ==> a.writeReactor.b == b && !a.writeReactor.writeAll && a.writeReactor.cb == cb &&
+//@           a.writeReactor.wroteSoFar == 0 && a.slot.Handlers[1] == a.writeReactor.onWrite
+
+//@ func (*AsyncAdapter).AsyncWriteAll
+//@   prop C01, C02, C17
+//@   requires aInv(a) && cb != nil && !aArmedW(a)
+//@   consumes cb unless aArmedW(a)
+//@   ensures [armed] invoked(cb) == 0 ==> a.writeReactor.b == b && a.writeReactor.writeAll && a.writeReactor.cb == cb &&
+//@           a.writeReactor.wroteSoFar == 0 && a.slot.Handlers[1] == a.writeReactor.onWrite
+
+// --- cancel / close ---
+
+//@ func (*AsyncAdapter).cancelReads
+//@   prop C01
+//@   requires aInv(a) && (aArmedR(a) ==> a.slot.Handlers[0] != nil)
+//@   assert call Handlers: !aArmedR(a) && arg0 != nil
+//@   consumes a.slot.Handlers[0] unless !old(aArmedR(a))
+//@   ensures [idle] !old(aArmedR(a)) ==> invoked(old(a.slot.Handlers[0])) == 0
+
+//@ func (*AsyncAdapter).cancelWrites
+//@   prop C01
+//@   requires aInv(a) && (aArmedW(a) ==> a.slot.Handlers[1] != nil)
+//@   assert call Handlers: !aArmedW(a) && arg0 != nil
+//@   consumes a.slot.Handlers[1] unless !old(aArmedW(a))
+//@   ensures [idle] !old(aArmedW(a)) ==> invoked(old(a.slot.Handlers[1])) == 0
+
+//@ func (*AsyncAdapter).Close
+//@   prop C01, C03
+//@   requires aInv(a)
+//@   assert call syscall.Close: old(a.closed) == 0 && arg0 == a.slot.Fd
+//@   ensures [already-closed] old(a.closed) != 0 ==> result != nil && (forall k :: FDOPEN[k] == old(FDOPEN[k]))
+//@   ensures [disarmed] old(a.closed) == 0 ==> !aArmedR(a) && !aArmedW(a) && a.closed == 1
+//@   ensures [accounting] old(a.closed) == 0 ==> a.ioc.poller.pending == old(a.ioc.poller.pending) - (old(aArmedR(a)) ? 1 : 0) - (old(aArmedW(a)) ? 1 : 0)
